@@ -207,18 +207,15 @@ def selftest(ctx, trace):
             idx = mids[0]
             evs[idx]["dok"] = False
         else:
-            idx = len(evs) - 2
-            evs[idx]["cdf"] = 999000000 - 1
-            if evs[idx - 1]["cdf"] > evs[idx]["cdf"]:
-                evs[idx - 1]["cdf"] = evs[idx]["cdf"]
-                idx = idx  # the far point is still the first inexplicable event unless the previous one moved
+            idx = 1                       # the far-left point: Cdf must be <= 1e-6 there
+            evs[idx]["cdf"] = 5000
         p = ctx.path("dist_trace-corrupt-%s.ndjson" % kind)
         with open(p, "w") as f:
             for e in evs:
                 f.write(json.dumps(e) + "\n")
         ok, bad, _ = vlib.validate_trace(ctx, "DistTrace", "DistTrace.cfg", "dist_trace.ndjson", p,
                                          label="selftest-" + kind)
-        if ok or bad is None or not (bad - 1 <= idx + 1 <= bad + 1):
+        if ok or bad != idx + 1:
             raise vlib.Infra("vacuous binding: corrupted trace (%s at event %d) accepted=%s rejected_at=%s"
                              % (kind, idx + 1, ok, bad))
         notes.append("%s corrupted at event %d: rejected at %d" % (kind, idx + 1, bad))
@@ -305,3 +302,32 @@ def replay(ctx, path):
         do_replay(ctx, binary, cases, "fam")
     return ctx.finish(rule="replay of one recorded violation (its transition, then all transitions of the family)",
                       evaluations=1, distinct_nontrivial=1)
+
+
+MANIFEST = {
+    "engine": "dist",
+    "spec": "spec/Dist.tla",
+    "engine_text": "Dist.tla (contract of 33 distribution families over Expr.tla terms and Rat.tla rationals, life cycle "
+                   "New/SetParameters/Clone/Eval), DistTrace.tla (trace validation of recorded CDFs); Go driver "
+                   "harness/cmd/dist, term evaluator harness/exprlib",
+    "technique": "TLA+ contract model checked by TLC (validity, exact support classification, symbolic textbook log-density "
+                 "and CDF with Expr!D derivatives, exact rational masses with the invariant 'masses sum to one'); one replay "
+                 "case per transition of the model's state graph executed on the real library with Float64 and Real64 "
+                 "parameters; recorded CDF grids validated by a TLC trace specification",
+    "text": "TLC enumerates family x parameter tuple of the object x parameter tuple of its clone x action (constructor with "
+            "valid and invalid tuples, SetParameters, Clone, evaluation at points inside, on the boundary of and outside the "
+            "support) and prints the observation the contract demands: the class (finite with a symbolic term, -Inf, "
+            "boundary, inadmissible, constructor error), the term variant, the parameter-vector layout and, for the discrete "
+            "families, the exact rational mass at every support point (TLC proves Binomial/Categorical/Geometric/Negative "
+            "Binomial masses sum to one). The driver rebuilds each source state through constructor, Clone and "
+            "SetParameters, compares LogPdf (and Cdf/LogCdf) with the evaluated term, demands exactly -Inf outside the "
+            "support, compares the library's derivative w.r.t. every parameter with Expr!D of the term, requires agreement "
+            "of Float64 and Real64, and checks get/set/clone round trips. CDFs recorded on increasing grids must be accepted "
+            "by DistTrace.tla (monotone, in [0,1], limits 0 and 1, d/dx Cdf = pdf by the library's own AD, LogCdf = log Cdf). "
+            "Bounded: small rational grids, dimension 2 for vector/matrix families; normalisation of continuous families "
+            "is implied by matching the normalised textbook formula, not integrated.",
+    "note": "Trusted: TLC, CommunityModules Json, Expr.tla differentiation table, Go math (leaf functions of the term "
+            "evaluator), the driver's binding of family names to constructors. Known finding C14-iwishart-trace is "
+            "modelled as KnownDeviation_IWishartTrace. Unmodelled families are listed in evidence (unmodelled_families).",
+    "design_ref": "DESIGN.md section 5 (C14), section 4 (Dist.tla), docs/C14.md",
+}
